@@ -15,6 +15,13 @@ Environment actions added to the model of Controller / ComponentState, each boun
                     `memo`); MemoNeverRuns, MemoEndsFinished, MemoOfferedNeverRuns, and the documented rule with a
                     memoized component counted as finished.
 
+  5. DoWhile        at run time: the slots of iteration i > 0 of a looped component join the graph when finishedCheck of the
+                    condition component resolves the condition to True (_handle_condition_component_finished ->
+                    _instantiate_next_dowhile_iteration); anything but True / False re-tags the condition component FAILED
+                    and kills everything; the placeholders keep the stage active (get_placeholder_state) until the loop
+                    ended; a consumer of a looped component waits for the loop to end (LoopConsumerWaits, NonLiveUntouched,
+                    LiveIterations, IterationJustified).  The condition's value per iteration is an environment choice.
+
 While growing the model a genuine defect of the code was found (key race:finish-called-during-postMortemCheck):
 postMortemCheck takes no lock and never looks at finishCalled again, so a finish() that lands after the POSTMORTEM
 notification passed the filter (killController, or _stopComponents after a sibling failed) is followed by (A) a task
@@ -24,6 +31,10 @@ FixRestartRace = FALSE = the current code); the properties are checked on the re
 pre-emption points inside the real postMortemCheck / Engine.restart at which the environment may kill the controller, those
 runs are matched against the current-code model and the properties evaluated on the logged real states.
 Plain reproduction with real threads: out/proposed_fixes/G02_kill_during_restart_hook_repro.py.
+A second one (key loop:iteration-instantiated-after-stop): finishedCheck of the condition component instantiates the next
+DoWhile iteration also after kill_all_components ran (stop_executing): its components are never launched nor finished, the
+stage never ends (deadlock on the model with FixLoopAfterStop = FALSE, KillReachesAll false, stuck real runs; plain
+reproduction out/proposed_fixes/G02_dowhile_iteration_after_kill_repro.py).
 
 The check: (1) TLC on the model with the environment actions switched on (invariants + action properties + deadlock check
 + Termination under fairness + per-action coverage); (1b) TLC prints every terminal state of the restart x memoization
@@ -46,12 +57,13 @@ from .c02 import judge, case_features
 
 PID = "G02"
 FIXOBS = True
-INVS = ["TypeOK", "DoneImpliesFinal", "RunOnlyStaged", "RestartBound", "ExactlyOneFinal",
+INVS = ["TypeOK", "DoneImpliesFinal", "RunOnlyStaged", "RestartBound", "ExactlyOneFinal", "NonLiveUntouched", "LiveIterations",
+        "IterationJustified",
         "KillReachesAll", "SkippedUntouched", "StageFromStart", "PostponedRecorded", "FailureHandled",
         "MemoNeverRuns", "MemoEndsFinished", "MemoOfferedNeverRuns"]
-PROPS = ["LaunchSafe", "FinalAbsorbing", "DoneGrows", "NoRunAfterFinal",
+PROPS = ["LaunchSafe", "FinalAbsorbing", "DoneGrows", "NoRunAfterFinal", "LoopConsumerWaits",
          "NoLaunchAfterStop", "KillShutsDown", "NoLaunchWhileAsleep", "NoStageInWhileAsleep"]
-BASE_ACTIONS = ["Pass", "TaskExit", "KilledExit", "SetFinal", "NotifyProducers", "PostMortemCheck", "FinishedCheck", "StageEnd",
+BASE_ACTIONS = ["Pass", "TaskExit", "KilledExit", "SetFinal", "NotifyProducers", "PostMortemCheck", "FinishedCheckO", "StageEnd",
                 "Cleanup", "Idle"]
 TRACE_PROPS = ("TLaunchSafe",) + SC.TRACE_PROPS
 
@@ -67,6 +79,10 @@ ENVS = [None,
         dict(pm_kill_p=0.3, pm_where="pm-entry"),
         dict(pm_kill_p=0.7, pm_where="in-restart")]
 RACE_KEY = "race:finish-called-during-postMortemCheck"
+LOOP_KEY = "loop:iteration-instantiated-after-stop"
+# what the condition of the DoWhile resolves to after iteration 0, 1, 2
+CONDS = [["False", "False", "False"], ["garbage", "False", "False"], ["True", "False", "False"], ["True", "garbage", "False"],
+         ["True", "True", "False"], ["True", "True", "garbage"]]
 RACE_PROPS = ("FinalAbsorbing", "NoRunAfterFinal", "NoLaunchAfterStop")
 
 
@@ -76,11 +92,14 @@ def models(thorough):
     small = ["chain2", "stages2", "obs2", "xfail"] if thorough else ["chain2", "obs", "xfail"]
     return [
         ("kill", shapes, dict(kill=True, starts=(0, 1, 2), all_orders=False), ["ExternalKill"]),
-        ("sleep", shapes, dict(max_sleeps=1, starts=(0, 1, 2), all_orders=thorough), ["SleepCall", "WakeUp"]),
+        ("sleep", shapes, dict(max_sleeps=1, starts=(0, 1, 2), all_orders=thorough), ["SleepCall", "WakeUpO"]),
         ("memo", shapes, dict(memo=True, starts=(0, 1, 2), all_orders=thorough), []),
         ("all", small, dict(kill=True, starts=(0, 1), max_sleeps=2 if thorough else 1, memo=True, all_orders=thorough),
-         ["ExternalKill", "SleepCall", "WakeUp"]),
-    ]
+         ["ExternalKill", "SleepCall", "WakeUpO"]),
+        # DoWhile at run time (FixLoopAfterStop = TRUE: the design a repair restores; the deviation has its own run below)
+        ("dwkill", SS.G02_DW if thorough else ["dw2"], dict(kill=True, starts=(0, 1), all_orders=False), ["ExternalKill"]),
+        ("dwsleep", SS.G02_DW if thorough else ["dw1"], dict(max_sleeps=1, starts=(0, 1), all_orders=False), ["SleepCall", "WakeUpO"]),
+    ] + ([("dwall", ["dw2"], dict(kill=True, max_sleeps=1, all_orders=False), ["ExternalKill", "SleepCall", "WakeUpO"])] if thorough else [])
 
 
 RESTARTING = (3, 5, 6, 8)        # outcome sequences whose first execution is followed by a restart
@@ -133,11 +152,29 @@ def feature_of(h):
     return "+".join(f) or "plain"
 
 
+def real_runs_worker(tier, seed, scratch):
+    """Executed in a forked child while the parent model-checks: every real run of this check, as plain records."""
+    thorough = tier == "thorough"
+    shapes = SS.G02_THOROUGH if thorough else SS.G02_QUICK
+    rnd = random.Random(seed + 2)
+    cases = gen_cases(shapes, 6 if thorough else 4, rnd)
+    nsched = 12 if thorough else 6
+    runs = SC.run_real(cases, nsched, scratch, seed + 11, env_for=lambda ci, k: ENVS[(k + ci) % len(ENVS)], catch_crash=True, light=True)
+    rnd = random.Random(seed + 5)
+    cases = dw_cases(rnd, 3 if thorough else 2)
+    dw = SC.run_real(cases, 8 if thorough else 4, scratch, seed + 17, env_for=lambda ci, k: DW_ENVS[(k + ci) % len(DW_ENVS)],
+                     catch_crash=True, light=True)
+    return runs, dw
+
+
 def run(tier):
     chk = Check(PID, tier)
     thorough = tier == "thorough"
     shapes = SS.G02_THOROUGH if thorough else SS.G02_QUICK
-    rnd = random.Random(chk.seed + 2)
+    # the real runs execute in a child process (deterministic: same seeds, one process) while TLC checks the models here
+    import multiprocessing
+    pool = multiprocessing.get_context("fork").Pool(1)
+    real = pool.apply_async(real_runs_worker, (tier, chk.seed, chk.scratch))
     # ---- 1. the design model with the environment actions switched on
     for tag, shp, env, must in models(thorough):
         r = SC.model_check("g02%s%s" % (tag, tier), shp, PROPS, INVS, fixobs=FIXOBS, deadlock=True, **env)
@@ -146,6 +183,8 @@ def run(tier):
         if not r["ok"]:
             raise MachineryError("TLC failed on the %s model:\n%s" % (tag, r["out"][-3000:]))
         for a in BASE_ACTIONS + must:
+            if a == "NotifyProducers" and tag.startswith("dw"):
+                continue              # the looped shapes have no repeating observer
             if not r["coverage"].get(a):
                 raise MachineryError("model %s: action %s never taken (vacuous model run): %s" % (tag, a, r["coverage"]))
         chk.add_tlc(r)
@@ -166,6 +205,13 @@ def run(tier):
                 prop, r["violated"], r["out"][-2000:]))
         chk.add_tlc(r)
         chk.cov.setdefault("current_code_model_violates", []).append(prop)
+    r = SC.model_check("g02loop%s" % tier, ["dw2"], [], ["KillReachesAll"], fixobs=FIXOBS, coverage=False, kill=True, all_orders=False,
+                       fix_loop_after_stop=False, deadlock=True)
+    if r["violated"] != "KillReachesAll":
+        raise MachineryError("the model of the current code (FixLoopAfterStop = FALSE) was expected to violate KillReachesAll, TLC says %s:\n%s" % (
+            r["violated"], r["out"][-2000:]))
+    chk.add_tlc(r)
+    chk.cov["current_code_model_violates"].append("KillReachesAll (DoWhile iteration instantiated after the kill)")
     # ---- 1b. terminal states of the restart x memoization cases, all orderings: the documented rule
     r = SC.emit_terminals("g02" + tier, shapes, fixobs=FIXOBS, memo=True, starts=(0, 1, 2), all_orders=False)
     chk.add_tlc(r)
@@ -194,10 +240,11 @@ def run(tier):
     chk.cov["model_cases_left_to_C02_known_class"] = left_to_c02
     chk.cov["model_terminal_states"] = sum(len(v) for v in terms.values())
     # ---- 2. real runs with the environment actions
-    cases = gen_cases(shapes, 6 if thorough else 4, rnd)
-    nsched = 12 if thorough else 6
-    runs = SC.run_real(cases, nsched, chk.scratch, chk.seed + 11, env_for=lambda ci, k: ENVS[(k + ci) % len(ENVS)], catch_crash=True)
-    for h in runs:
+    try:
+        runs, dw = real.get()
+    finally:
+        pool.terminate()
+    for h in runs + dw:
         if h.threads:
             raise MachineryError("harness leaked threads: %s" % h.threads)
     # runs in which the environment pre-empted postMortemCheck are matched against the model of the CURRENT code (with the
@@ -262,16 +309,20 @@ def run(tier):
         cnt["real_runs_judged_by_rule"] += 1
         for complaint in judge(h.shape_name, rule, unrec, cs, verdict):
             chk.violation("outcome:%s:%s" % (feat, h.shape_name), "real run: %s: %s" % (what, complaint), rp)
+    # ---- 2b. DoWhile at run time: real runs of the looped shapes
+    dw_runs(chk, dw, cnt, race)
     other = len(chk.violations)
     for key, text, rp in race:
         chk.violation(key, text, rp)
     chk.cov["real"] = dict(sorted(cnt.items()))
-    chk.cov["violations_other_than_%s" % RACE_KEY] = other
+    chk.cov["violations_other_than_%s_and_%s" % (RACE_KEY, LOOP_KEY)] = other
     # vacuity guards on the real runs (only meaningful when nothing was reported: a breakage may remove the witnesses)
     if not chk.violations:
         for w in ("kill:something-alive", "kill:while-running", "restart:consumer-of-skipped-launched", "sleep:finishedCheck-postponed",
                   "sleep:postponed-failure-replayed", "sleep:pass-while-asleep", "memo:memoized", "memo:unpopulated-ran",
-                  "memo:consumer-of-memoized-launched", "kill:while-asleep", "race:runs-with-kill-inside-postMortemCheck"):
+                  "memo:consumer-of-memoized-launched", "kill:while-asleep", "race:runs-with-kill-inside-postMortemCheck",
+                  "dw:two-iterations-instantiated", "dw:garbage-condition-retagged-failed", "dw:loop-consumer-launched",
+                  "dw:iteration-instantiated-at-wakeup", "dw:kill-while-loop-active"):
             if not cnt[w]:
                 raise MachineryError("no real run witnesses %s: %s" % (w, dict(cnt)))
     h = next((x for x in runs if len(x.externals) >= 2 and not x.crash), runs[0])
@@ -292,6 +343,100 @@ def run(tier):
                         "Engine.restart before the restart hook) with an external kill only - a finish() coming from a sibling's "
                         "finishedCheck at those points is modelled (LatePostMortem) but not injected"]
     return chk.finish()
+
+
+def dw_cases(rnd, per_conds):
+    out = []
+    for sid, sn in enumerate(SS.G02_DW, 1):
+        nodes = SS.expand(SS.BASE_SHAPES[sn])
+        nstages = max(n["stage"] for n in nodes) + 1
+        combos = list(itertools.product(*[n["outs"] for n in nodes]))
+        allok = [c for c in combos if all(o in (1, 3) for o in c)]
+        loop_stage = max(n["stage"] for n in nodes if n.get("loop"))
+        for start in range(nstages):
+            # a loop in a skipped stage does not run: what its condition would say is irrelevant (one representative)
+            for conds in (CONDS if start <= loop_stage else CONDS[:1]):
+                for j in range(per_conds):
+                    oa = list(rnd.choice(allok if j % 2 == 0 and allok else combos))
+                    out.append((sid, sn, oa, dict(start=start, conds=conds)))
+    return out
+
+
+DW_ENVS = [None, dict(kill_p=0.12), dict(sleep_p=0.3, wake_p=0.25, max_sleeps=2), None, dict(kill_p=0.3),
+           dict(sleep_p=0.6, wake_p=0.15, max_sleeps=2, hold_asleep=True)]
+
+
+def dw_runs(chk, runs, cnt, late):
+    """Real runs of the shapes with a DoWhile: every run must reach quiescence and be a behaviour of the specification (the
+    recorded finishedCheck / wake_up may follow the current code or the repaired design, see FcEffectX); the properties are
+    evaluated on the logged real states."""
+    ok_runs = [h for h in runs if not h.crash]
+    results, tl = SC.validate_traces("g02dw" + chk.tier, SS.G02_DW, ok_runs, fixobs=FIXOBS, props=TRACE_PROPS)
+    for t in tl:
+        chk.add_tlc(t)
+    resmap = {id(h): r for h, r in zip(ok_runs, results)}
+    for h in runs:
+        feat = "dowhile" + ("+" + feature_of(h) if feature_of(h) != "plain" else "")
+        chk.evaluated((h.shape_name, tuple(h.oa), h.start, tuple(h.conds), json.dumps(h.sched)))
+        cnt["runs:" + feat] += 1
+        rp = dict(kind="real", shape=h.shape_name, oa=h.oa, sched=list(h.sched), extra=h.extra)
+        what = "%s outcomes=%s start=%d conditions=%s schedule=%s external=%s" % (h.shape_name, h.oa, h.start, h.conds, h.sched, h.externals)
+        if h.crash:
+            chk.violation("crash:%s:%s" % (feat, h.crash.split(":")[0]), "%s: the stage loop raised %s\n%s" % (what, h.crash, h.crash_tb[-1500:]), rp)
+            continue
+        res = resmap[id(h)]
+        after_stop = instantiated_after_stop(h)
+        if after_stop is not None and (h.stuck or not h.quiescent or (res is not None and res.get("prop") == "KillReachesAll")):
+            cnt["loop:iteration-instantiated-after-stop"] += 1
+            late.append((LOOP_KEY, "%s: finishedCheck of %s instantiated the next iteration after the controller stopped executing; %s: %s" % (
+                what, h.trace[after_stop]["arg"],
+                "Controller.run() never ends (%s)" % h.stuck if (h.stuck or not h.quiescent) else "KillReachesAll is false on the real states",
+                json.dumps(describe(h, after_stop - 1))[:1200]), rp))
+            continue
+        if h.stuck or not h.quiescent:
+            chk.violation("stuck:%s:%s" % (feat, h.shape_name), "%s never reaches quiescence: %s; last events %s" % (
+                what, h.stuck, json.dumps(describe(h, len(h.trace) - 2))[:1200]), rp)
+            continue
+        if res is not None:
+            chk.violation(key_for_trace(h, res), "%s: %s at step %s: %s" % (what, res["kind"], res.get("step"),
+                                                                           json.dumps(describe(h, res.get("step")))[:1500]), rp)
+            continue
+        chk.trace_validated()
+        count_witnesses(h, cnt)
+        dw_witnesses(h, cnt)
+
+
+def instantiated_after_stop(h):
+    """Index of the trace entry in which an iteration joined the graph although stop_executing was already set."""
+    prev = None
+    for i, e in enumerate(h.trace):
+        if prev is not None and prev["stop"] and len(e["st"]["live"]) > len(prev["live"]):
+            return i
+        prev = e["st"]
+    return None
+
+
+def dw_witnesses(h, cnt):
+    prev = None
+    loop_refs = {h.ref(n) for n in h.nodes if n.get("loop")}
+    consumers = {h.ref(n) for n in h.nodes if not n.get("loop") and any("#" in p for p in n["prods"])}
+    for e in h.trace:
+        st = e["st"]
+        if prev is not None:
+            if len(st["live"]) > len(prev["live"]):
+                cnt["dw:iterations-instantiated"] += 1
+                if st["curiter"] == 2:
+                    cnt["dw:two-iterations-instantiated"] += 1
+                if e["ev"] == "WakeUp":
+                    cnt["dw:iteration-instantiated-at-wakeup"] += 1
+            if e["ev"] == "FinishedCheck" and prev["comps"][e["arg"]]["cs"] == "finished" and st["comps"][e["arg"]]["cs"] == "failed":
+                cnt["dw:garbage-condition-retagged-failed"] += 1
+            if e["ev"] == "ExternalKill" and any(prev["comps"][r]["cs"] in ("running", "postmortem") for r in loop_refs if r in prev["live"]):
+                cnt["dw:kill-while-loop-active"] += 1
+        for c in e["calls"]:
+            if c[0] == "Run" and c[1] in consumers:
+                cnt["dw:loop-consumer-launched"] += 1
+        prev = st
 
 
 def race_step(h, res):
@@ -358,6 +503,7 @@ def replay(path):
     sched = tuple(d["sched"])
     h = ctl.run_case(d["shape"], d["oa"], chk.scratch, SC.make_policy(sched), catch_crash=True, **(d.get("extra") or {}))
     h.sid = 1
+    h.extra = d.get("extra") or {}
     for e in h.trace:
         print(e["ev"], e["arg"], e["calls"], {k: v["cs"] for k, v in e["st"]["comps"].items()},
               "done=%s staged=%s stop=%s sleepReq=%s asleep=%s postponed=%s" % (e["st"]["done"], e["st"]["staged"], e["st"]["stop"],
